@@ -679,7 +679,11 @@ class Machine:
                         if st[2].startswith(('move _', 'copy _', 'move (', 'copy (')):
                             v = self.call_value(self.operand(fr, MIR.parse_operand(st[2])), args2)
                         else:
-                            v = self.call(st[2], args2, fr)
+                            t0 = None
+                            if st[3] and st[3][0][0] in ('move', 'copy'):
+                                try: t0 = self.place_type(fr, st[3][0][1])
+                                except Exception: t0 = None
+                            v = self.call(st[2], args2, fr, argtype0=t0)
                         if st[4] is None: raise Panic('diverging call returned: ' + st[2])
                         self.store(self.place(fr, st[1]), v)
                         nxt = st[4]
@@ -747,10 +751,14 @@ class Machine:
         if len(args) != len(names): return None
         return dict(zip(names, args))
 
-    def call(self, callee, args, fr=None):
-        if fr is not None and fr.tenv: callee = self.subst_tenv(callee, fr.tenv)
-        ent = self._callee_cache.get(callee)
+    def call(self, callee, args, fr=None, argtype0=None):
+        if fr is not None and fr.tenv:
+            callee = self.subst_tenv(callee, fr.tenv)
+            if argtype0: argtype0 = self.subst_tenv(argtype0, fr.tenv)
+        ckey = (callee, argtype0)
+        ent = self._callee_cache.get(ckey)
         if ent is None:
+            self.aux['_argtype0_hint'] = argtype0
             norm = self.normalise(callee)
             ent = None
             for p, m in self.models:
@@ -759,11 +767,18 @@ class Machine:
                 fn = self.resolve(norm)
                 if fn is None: raise Inconclusive('unmodelled callee: ' + norm)
                 ent = ('mir', fn, norm)
-            self._callee_cache[callee] = ent
+            self._callee_cache[ckey] = ent
         if ent[0] == 'model':
             self.callees_model.add(ent[2]); self.stats['model_calls'] += 1
             return ent[1](self, args, ent[2], fr)
         self.callees_mir.add(ent[1].name)
+        if ent[2].startswith('<{closure@') and len(args) == 2 and isinstance(args[1], list) and re.search(r' as Fn(Mut|Once)?<', ent[2]):
+            # <closure as Fn<(A, B)>>::call(&closure, (a, b)): the argument tuple is spread over the closure body's parameters
+            fn = ent[1]
+            self_arg = args[0]
+            if not fn.args[0][1].startswith('&'): self_arg = self.load(self_arg) if isinstance(self_arg, Ref) else self_arg
+            elif not isinstance(self_arg, Ref): self_arg = Ref(Cell(self_arg))
+            return self.run_fn(fn, [self_arg] + list(args[1]), self.callee_tenv(fn, ent[2]))
         return self.run_fn(ent[1], args, self.callee_tenv(ent[1], ent[2]))
 
     def call_value(self, f, args):
@@ -785,6 +800,11 @@ class Machine:
                     m = re.search(r'\{closure@([^}]+)\}', f.args[0][1])
                     if m: self._closure_index[m.group(1)].append(f)
         c = [f for f in self._closure_index.get(span, []) if len(f.args) == nargs]
+        j = self.aux.get('instance_index')
+        if j and len(c) == 1:
+            # executing the j-th further instance of a macro-generated impl: its closures are the j-th further bodies of the same name
+            inst = getattr(self.fns, 'instances', {}).get(c[0].name, [])
+            if len(inst) >= j: return inst[j - 1]
         if len(c) == 1: return c[0]
         if len(c) > 1:
             # closures of one macro expansion share a span: prefer the outermost (fewest closure levels)
@@ -889,6 +909,14 @@ class Machine:
             if len(o2) > 1:
                 k = min(f.name.count('<impl at') for f in o2); o2 = [f for f in o2 if f.name.count('<impl at') == k]
             if len(o2) == 1: out = o2
+        if len(out) > 1:
+            # same method on the MetaForm and the PortableForm instantiation of a builder: the type of the receiver at the call site decides
+            # (rustc prints the default form parameter - MetaForm - as nothing)
+            t0 = self.aux.get('_argtype0_hint')
+            if t0 and not re.search(r'\b[A-Z]\b', t0):
+                portable = 'PortableForm' in t0
+                o2 = [f for f in out if f.args and ('PortableForm' in f.args[0][1]) == portable]
+                if len(o2) == 1: out = o2
         if len(out) == 1: return out[0]
         if len(out) > 1: raise Inconclusive('ambiguous callee %s: %s' % (callee, [f.name for f in out][:4]))
         return None
